@@ -275,6 +275,7 @@ def rule_recycle_compare(ctx):
     ctx.check("if node is None or not detached or (not node.can_recycle(**kwargs)): return None" in src.replace("or not node.can_recycle(**kwargs)", "or (not node.can_recycle(**kwargs))"), tr_.fq, "recycle requires a detached node that accepts the declaration", "try_recycle guard changed", "guarded")
     shared.check_initialize_row_carry_over(ctx, "a recycled BUILT output is trusted as up to date (or a fresh row is outdated needlessly)")
     shared.check_after_recycle_repends(ctx, "a recycled step is trusted although it failed or lost its hash (or is re-run needlessly)")
+    shared.check_recreated_step_clean_slate(ctx, "an edge to an output that the new declaration dropped survives the re-creation of the step; when the step is later detached and declared with that output again, can_recycle sees the stale edge, recycles the step as complete, and the output (an orphan without creator) is deleted by the cleanup although the plan declares it")
 
 
 def rule_startup_order(ctx):
@@ -309,6 +310,7 @@ RULES = [
 ]
 
 MUTANTS = [
+    Mutant("recreated-step-keeps-output-edges", "step.py", in_function("Step.initialize_row", replace_once('        self.db.execute("DELETE FROM dependency WHERE source = :node", {"node": self.i})\n', "")), ("R-C01-9",)),
     Mutant("recycle-ignores-new-overrides", "step.py", in_function("Step.after_recycle", replace_once("state == StepState.SUCCEEDED and (self.get_hash() is None or hashed_args_changed)", "state == StepState.SUCCEEDED and self.get_hash() is None")), ("R-C01-9",)),
     Mutant("lost-product-one-level", "step.py", in_function("Step.after_lost_product", replace_once("creator.after_lost_product()", "creator.delete_hash()")), ("R-C01-5",)),
     Mutant("consumers-attached-only", "workflow.py", in_function("Workflow.mark_consuming_steps_pending", replace_once("file.sinks(Step, include_detached=True)", "file.sinks(Step)")), ("R-C01-1",)),
